@@ -25,7 +25,7 @@ func VerifySignature(profilePubKey, signature []byte) bool {
 	must(enc.Close())
 	must(breaker.Close())
 	unwrap(hash.Write([]byte("\n-----END RSA PRIVATE KEY-----\n")))
-	return rsa.VerifyPKCS1v15(pubKey, crypto.SHA256, hash.Sum(nil), signature) != nil
+	return rsa.VerifyPKCS1v15(pubKey, crypto.SHA256, hash.Sum(nil), signature) == nil
 }
 
 const pemLineLength = 76
